@@ -122,6 +122,20 @@ def check(prop, tier):
                                    event={"rpc": "notary." + op["op"].capitalize(), "msg": "Transaction", "must": False, "shape": {},
                                           "outcome": "error", "detail": "awaiting after the failed call: %s" % v["event"].get("awaiting"),
                                           "recorded": v["event"]}, behaviour=v["behaviour"]))
+    # the webhook service (Webhooks.tla): the subscription table has no getter, so "a refused Webhooks request leaves it
+    # unchanged" is judged on runs where every step is followed by one probe notification per address
+    import webhookchk
+    wviol, wev, wacts, wbeh = webhookchk.run(tier, os.path.join(wd, "webhook"), drivebin, nrandom=30 if tier == "quick" else 600)
+    webhook_note = "webhook subscriptions: %d behaviours, %d events %s" % (wbeh, wev, wacts)
+    for v in wviol:
+        if v["event"].get("a") == "Sub":
+            violations.append(dict(what="C15_RejectedLeavesStateUnchanged (webhooks, %s)" % v["what"],
+                                   event={"rpc": "webhooks.Webhooks", "msg": "SignedHash", "must": False, "shape": {},
+                                          "outcome": v["event"].get("res"), "webhook": True, "recorded": v["event"]},
+                                   behaviour=v["behaviour"]))
+        else:
+            webhook_note += "; NOT explained by Webhooks.tla at a %s step (outside C15, see ./check W01)" % v["event"].get("a")
+    log("[webhook] " + webhook_note)
     crashed, detail = memberchk.stress(tier, os.path.join(wd, "member-stress"), drivebin)
     if crashed:
         violations.append(dict(what="C15_NoCrash", event={"rpc": "gossip.Discover+Announce", "msg": "ConnectionData", "must": False, "shape": {},
@@ -146,6 +160,7 @@ def check(prop, tier):
            "explanation": "shape space: every field against an otherwise valid request, every pair of fields (triples in the "
                           "thorough tier), the full product for SignedHash requests"}
     cov["discovery_protocol"] = member_note
+    cov["webhook_subscriptions"] = webhook_note
     write_evidence(prop, tier, "exploration", cov, wall, len(violations),
                    ["handlers are called as Go methods with message structs built directly (incl. nil sub-messages), not decoded bytes",
                     "coverage-guided mutation of serialized requests is not attempted (different technique)", "TLC"])
@@ -172,6 +187,16 @@ def replay(prop, path):
             log("  " + json.dumps(bviol[0]["event"])[:300])
             return 1
         log("replay: the notary behaviour is explained by Notary.tla")
+        return 0
+    if "recorded" in e and e.get("webhook"):
+        import webhookchk
+        beh = v.get("behaviour") or {"id": "replay", "wallets": webhookchk.WALLETS, "urls": webhookchk.URLS, "ops": []}
+        wviol, _, _ = webhookchk.drive_validate(os.path.join(wd, "webhook"), drivebin, [beh])
+        if any(x["event"].get("a") == "Sub" for x in wviol):
+            print("VIOLATION property=%s replay=%s" % (prop, path), flush=True)
+            log("  " + json.dumps(wviol[0]["event"])[:300])
+            return 1
+        log("replay: the webhook behaviour is explained by Webhooks.tla")
         return 0
     if "recorded" in e:
         # a step of the discovery protocol: run the behaviour it came from again, TLC judges the new recording
